@@ -136,15 +136,19 @@ Print Assumptions C09_complete_marks_done.
 Print Assumptions C09_exactly_once.
 Print Assumptions C09_exactly_once_prefix.
 
-(** ** the precondition "the reader returns the last executed file last" is needed
+(** ** a history that leaves the linear regime: --exec-order non-linear
 
     With --exec-order non-linear an out-of-order file that failed midway is not
-    the greatest recorded version; Pending (M-PEND) only inspects the last
-    revision and answers "nothing to do": the resume clause is FALSE there.
-    History: apply [1;3]; add file 2 (three statements) and apply with
-    non-linear order, its second statement fails; apply again without faults.
-    (Known finding C11-nonlinear-partial-not-resumed, reproduced on the real
-    executor by the C11 check.) *)
+    the greatest recorded version. Before the repair of
+    C11-nonlinear-partial-not-resumed (notes/fixes/C11-nonlinear-partial-not-resumed.diff)
+    Pending (M-PEND) inspected only the last revision and answered "nothing to
+    do": the resume clause was FALSE there ([C09_resume_nonlinear_refuted], now
+    gone). With the repaired Pending the same history resumes the file:
+    apply [1;3]; add file 2 (three statements) and apply with non-linear order,
+    its second statement fails; apply again without faults.
+    The general statement for non-linear histories is C11's
+    ([C11_partial_not_last]); the theorems above cover the histories in which the
+    reader returns the last executed file last. *)
 Definition nl_cfg : cfg := mkCfg NonLinear None true false.
 Definition nl_f1 : file := mkFile [49%N] [[65%N]] false.
 Definition nl_f2 : file := mkFile [50%N] [[65%N]; [66%N]; [67%N]] false.
@@ -154,28 +158,17 @@ Definition nl_runs : list run :=
     mkRun nl_cfg 0 [nl_f1; nl_f2; nl_f3] [false; false; false; true];
     mkRun nl_cfg 0 [nl_f1; nl_f2; nl_f3] [] ].
 
-Theorem C09_resume_nonlinear_refuted :
-  exists (rs : list run) (all : list file) (c : cfg),
-    sorted_files all /\ (forall f, In f all -> f_ckpt f = false) /\ cfg_ok c /\
-    (exists rs0, rs = rs0 ++ [mkRun c 0 all []]) /\
-    let outs := run_all bytes bytes_eqb (fun b => b) rs [] in
-    (* the last, fault-free run does nothing ... *)
-    last (map (fun x => fst (fst x)) outs) (RExec ODone) = RPend PNoPending /\
-    (* ... although planned statements never ran and the revision of file 2 stays 1/3 *)
-    journal (all_events bytes outs) = [([49%N], [65%N]); ([51%N], [65%N]); ([50%N], [65%N])] /\
-    length (plan all) = 5 /\
-    option_map (fun r => (r_applied r, r_total r))
-               (tbl_get (final_tbl bytes outs []) [50%N]) = Some (1, 3).
-Proof.
-  exists nl_runs, [nl_f1; nl_f2; nl_f3], nl_cfg.
-  split; [unfold sorted_files, fver_lt; repeat constructor|].
-  split; [intros f [<-|[<-|[<-|[]]]]; reflexivity|].
-  split; [split; reflexivity|].
-  split; [exists [mkRun nl_cfg 0 [nl_f1; nl_f3] [];
-                  mkRun nl_cfg 0 [nl_f1; nl_f2; nl_f3] [false; false; false; true]]; reflexivity|].
-  vm_compute. repeat split; reflexivity.
-Qed.
-Print Assumptions C09_resume_nonlinear_refuted.
+Example C09_resume_nonlinear_fixed :
+  let outs := run_all bytes bytes_eqb (fun b => b) nl_runs [] in
+  (* the last, fault-free run resumes file 2 at its second statement ... *)
+  last (map (fun x => fst (fst x)) outs) (RPend PNoPending) = RExec ODone /\
+  journal (all_events bytes outs) =
+    [([49%N], [65%N]); ([51%N], [65%N]); ([50%N], [65%N]); ([50%N], [66%N]); ([50%N], [67%N])] /\
+  length (plan [nl_f1; nl_f2; nl_f3]) = 5 /\
+  (* ... and its revision is complete afterwards *)
+  option_map (fun r => (r_applied r, r_total r))
+             (tbl_get (final_tbl bytes outs []) [50%N]) = Some (3, 3).
+Proof. vm_compute. repeat split; reflexivity. Qed.
 
 (** ** non-vacuity *)
 Definition ex_all : list file :=
